@@ -17,7 +17,7 @@ PLAN = {
     'C10': dict(level='proof', engines=['chordre', 'chordnative']),
     'C11': dict(level='proof', engines=['chordnative']),
     'C12': dict(level='proof', engines=['sumlib', 'segnative', 'hiernative', 'chordevalnative']),
-    'C13': dict(level='proof', engines=['intervalsnative', 'libconf']),
+    'C13': dict(level='proof', engines=['intervalsnative', 'chordevalnative', 'libconf']),
     'C14': dict(level='proof', engines=['tasknative', 'keynative', 'libconf']),
     'C16': dict(level='proof', engines=['forward', 'segnative']),
     'C17': dict(level='proof', engines=['hiernative', 'bundles']),
